@@ -21,6 +21,8 @@ CONSTANTS Names,        \* path component alphabet
           MaxObjs,      \* bound on created objects
           Tag,          \* scenario tag carried into the trace
           SoftTargets,  \* candidate targets of soft links
+          HardTargets,  \* candidate targets of hard links
+          SureCases,    \* mark the emitted cases: every call valid by the model must succeed
           OnlyLastMayFail \* prune histories in which a call that changed nothing is followed by more calls
 
 VARIABLES hist,      \* sequence of calls made so far (the driver's input format)
@@ -38,7 +40,7 @@ LInit == /\ objs = [i \in {Root} |-> Obj("group")] /\ nid = 1 /\ created = {} /\
          /\ hist = <<>> /\ handles = {Root} /\ touched = {} /\ lastok = TRUE
          /\ cfgv \in [sb : Sbs, rb : {""}, style : {0}, tag : {Tag}]
 
-Log(r) == hist' = Append(hist, r)
+Log(r) == hist' = Append(hist, r @@ [sure |-> SureCases])
 Can(op) == op \in Ops /\ Len(hist) < Depth /\ (OnlyLastMayFail => lastok)
 NoChange == UNCHANGED mvars
 
@@ -138,7 +140,7 @@ OpenDs(pc) == /\ Can("opends") /\ ~fclosed
 LStep ==
   \/ \E pc \in Paths : MkGroup(pc) \/ XLink(pc)
   \/ \E pc \in Paths, s \in Shapes : MkDs(pc, s)
-  \/ \E pc \in Paths, tc \in Paths : HLink(pc, tc)
+  \/ \E pc \in Paths, tc \in HardTargets : HLink(pc, tc)
   \/ \E pc \in Paths, tc \in SoftTargets : SLink(pc, tc)
   \/ \E pc \in Paths, dc \in DataClasses : Write(pc, dc)
   \/ \E pc \in Paths, w \in {"short", "long", "wrongtype"} : BadWrite(pc, w)
